@@ -30,6 +30,10 @@ class World(object):
     def fresh_tag(self):
         """a new tag object from a fresh activation on the same simulator"""
         self.sim.mute = False
+        if hasattr(self.sim, "sector"):
+            # Type 2: sector 0 is selected after every activation
+            self.sim.sector = 0
+            self.sim.sector_pending = False
         self.clf.target = True       # found by a fresh sense
         return nfc.tag.activate(self.clf, self.target())
 
